@@ -107,10 +107,27 @@ def r_ledger(root):
     inst += 2
     rm = defs["remove_models_from_repositories"][0]
     from sa import sem as _sem
-    _fi_rm = _sem.info(rm)
-    recv = [ast.unparse(_fi_rm.expand(c.func.value, at=c)) for c in calls(rm) if callee_name(c) == "remove_models"]
-    if not (any("_tx_metamodel._tx_model_repository" in r for r in recv) and any(r == "model._tx_model_repository" for r in recv)):
-        out.append(Finding("C18", "C18.a", "textx/scoping/__init__.py", "remove_models_from_repositories", str(recv), "models are not removed from both the metamodel's global repository and the models' own repositories"))
+    from sa import pyeval as _pe
+    # decided by evaluation: for a model that has both repositories, both receive remove_models(<the models to be removed>);
+    # a repository that is absent is skipped without an error
+    _mod = load(root, "textx/scoping/__init__.py")
+    _fns = {f_.name: f_ for f_ in _mod.body if isinstance(f_, ast.FunctionDef)}
+    _params = [a.arg for a in rm.args.args]
+    def _run(has_global, has_own, self_removed=False):
+        log = []
+        mm_ = {".name": "mm"}; m_ = {".name": "m", "._tx_metamodel": mm_}
+        if has_global: mm_["._tx_model_repository"] = {".remove_models": _pe.Callee("global", log)}
+        if has_own: m_["._tx_model_repository"] = {".remove_models": _pe.Callee("own", log)}
+        env = {_params[0]: [m_], _params[1]: ([m_] if self_removed else ["victim"]), "__functions__": _fns}
+        try: _pe.run_block(rm.body, env)
+        except _pe.Unsupported as e: raise AnalysisError("remove_models_from_repositories: outside the evaluated subset: %s" % e)
+        except _pe.Raised as e: log.append("raise " + e.cls)
+        return sorted(log)
+    for hg, ho, sr in ((True, True, False), (True, False, False), (False, True, False), (False, False, False), (True, True, True)):
+        want = sorted((["global"] if hg else []) + (["own"] if ho else []))
+        got = _run(hg, ho, sr)
+        if got != want:
+            out.append(Finding("C18", "C18.a", "textx/scoping/__init__.py", "remove_models_from_repositories", "model with%s global repository, with%s own repository%s" % ("" if hg else "out", "" if ho else "out", ", itself among the models to remove" if sr else ""), "models are removed from %s, documented: from %s (both the metamodel's global repository and the model's own repository, each if present)" % (got or "no repository", want or "none"))); break
     for h in handlers:
         for c in closure_calls(h.body, defs, depth=2):
             if callee_name(c) == "remove_models_from_repositories":
